@@ -280,6 +280,22 @@ def run(tier, seed):
                 e = record_call(clf, kind, X, y, lo, hi, None, share=share, X_asgiven=X_asgiven if share else None)
                 evs.append(e)
                 script.append([kind, bk])
+            if c['dimwise'] and s % 2 == 0:
+                # the refinement is continued with a larger budget: the stored test set must be classified by the arg-max of the REFINED densities
+                rl = {'k': 'relearn', 'raised': False, 'classes': [], 'ranks': []}
+                try:
+                    with impl.quiet(), impl.watchdog(600):
+                        clf.continue_dimension_wise_refinement(tolerance=0.0, max_evaluations=110, min_evaluations=1)
+                    tdr = clf.get_testing_data()
+                    rl['classes'] = [int(v) for v in np.asarray(clf.get_calculated_classes_testset()).tolist()]
+                    rl['ranks'] = ranks(independent_densities(clf, np.asarray(tdr.get_data()[0], dtype=float))) if rl['classes'] else []
+                except impl.Timeout:
+                    raise
+                except Exception as ex:
+                    rl['raised'] = True
+                    rl['_exc'] = '%s: %s' % (type(ex).__name__, ex)
+                evs.append(rl)
+                script.append(['relearn', 'continue_dimension_wise_refinement'])
             ev = {'k': 'evaluate', 'raised': False, 'summary': [0, 0], 'labels': []}
             try:
                 with impl.quiet():
